@@ -595,10 +595,12 @@ Lemma first_err_done l : is_done (first_err l) = forallb is_done l.
 Proof. induction l as [|o l IH]; [reflexivity|]. destruct o; cbn; auto. Qed.
 
 Lemma run_chk_mono1 k : run_chk true k = Done -> run_chk false k = Done.
-Proof. destruct k as [s im|s|s im]; destruct s; try destruct im; cbn; congruence. Qed.
+Proof. destruct k as [s im|s|s im|b]; [destruct s, im | destruct s | destruct s, im | destruct b]; cbn; congruence. Qed.
 
 Lemma run_chk_mono2 k : run_chk false k = Done -> run_chk true k = Done \/ run_chk true k = SignatureErr.
-Proof. destruct k as [s im|s|s im]; destruct s; try destruct im; cbn; intros H; try discriminate H; auto. Qed.
+Proof.
+  destruct k as [s im|s|s im|b]; [destruct s, im | destruct s | destruct s, im | destruct b]; cbn; intros H; try discriminate H; auto.
+Qed.
 
 Lemma first_err_mono1 sch : first_err (map (run_chk true) sch) = Done -> first_err (map (run_chk false) sch) = Done.
 Proof.
@@ -666,22 +668,31 @@ Proof. intros H. induction l as [|x l IH]; [reflexivity|]. cbn. rewrite H, IH. r
 Definition x_done (only_md q : bool) (mm : mmsg) (x : asn) : bool :=
   is_done (verify_assertions q (x_find only_md mm x) (x_im mm x)).
 
-Lemma schedule_done only q mm :
-  forallb is_done (map (run_chk q) (schedule only mm)) = forallb (x_done only q mm) (mm_asl mm).
+Lemma schedule_v0_done only q mm :
+  forallb is_done (map (run_chk q) (schedule_v0 only mm)) = forallb (x_done only q mm) (mm_asl mm).
 Proof.
-  unfold schedule. rewrite !map_app, !forallb_app, !map_map.
+  unfold schedule_v0. rewrite !map_app, !forallb_app, !map_map.
   rewrite <- (forallb_split x_enc (x_done only q mm) (mm_asl mm)).
   unfold plain_of, enc_of, is_plain. f_equal.
   - rewrite forallb_map'. reflexivity.
   - rewrite !forallb_map'. rewrite <- forallb_andb. apply forallb_ext'. intros x. apply enc_checks.
 Qed.
 
-Lemma parse_mmsg_eq c mm :
-  parse_mmsg c mm =
-  core_gen (wr_c c) (wa_c c) (wor_c c) (look (only_md c) (mm_rwho mm) (mm_schema_ok mm) (mm_rs mm))
-           (fun q => verify_all q (count_ok (mm_asl mm)) (schedule (only_md c) mm)) (mm_bind mm).
+(* fix 6a3bb24f: the walk ends with the repaired number rule *)
+Lemma schedule_done only q mm :
+  forallb is_done (map (run_chk q) (schedule only mm))
+  = forallb (x_done only q mm) (mm_asl mm) && negb (several_unsigned mm).
 Proof.
-  unfold parse_mmsg, wr_c, wa_c, wor_c, only_md.
+  unfold schedule. rewrite map_app, forallb_app, schedule_v0_done. cbn [map forallb run_chk].
+  destruct (several_unsigned mm); reflexivity.
+Qed.
+
+Lemma parse_mmsg_eq sch c mm :
+  parse_mmsg_with sch c mm =
+  core_gen (wr_c c) (wa_c c) (wor_c c) (look (only_md c) (mm_rwho mm) (mm_schema_ok mm) (mm_rs mm))
+           (fun q => verify_all q (count_ok (mm_asl mm)) (sch (only_md c) mm)) (mm_bind mm).
+Proof.
+  unfold parse_mmsg_with, wr_c, wa_c, wor_c, only_md.
   destruct c as [o1 o2 o3 o4]; destruct o1 as [|[|]|], o2 as [|[|]|], o3 as [|[|]|], o4 as [|[|]|]; reflexivity.
 Qed.
 
@@ -696,16 +707,35 @@ Lemma verify_all_done q okc sch : is_done (verify_all q okc sch) = okc && forall
 Proof. unfold verify_all. destruct okc; cbn; [apply first_err_done | reflexivity]. Qed.
 
 (* the verdict on a Response with a list of assertions, in closed form *)
-Lemma parse_mmsg_char c mm :
+Lemma parse_with_char sch c mm :
   let R := look (only_md c) (mm_rwho mm) (mm_schema_ok mm) (mm_rs mm) in
-  let V q := count_ok (mm_asl mm) && forallb (x_done (only_md c) q mm) (mm_asl mm) in
-  parse_mmsg c mm =
+  let V q := count_ok (mm_asl mm) && forallb is_done (map (run_chk q) (sch (only_md c) mm)) in
+  parse_mmsg_with sch c mm =
   negb (is_paos (mm_bind mm)) && is_done (load_response (wr_c c) R) && V (wa_c c)
   && negb (wor_c c && negb (is_done (load_response true R)) && negb (V true)).
 Proof.
   cbv zeta. rewrite parse_mmsg_eq.
   rewrite core_gen_char; [|apply verify_all_mono1|apply verify_all_mono2].
-  rewrite !verify_all_done, !schedule_done. reflexivity.
+  rewrite !verify_all_done. reflexivity.
+Qed.
+
+Lemma parse_mmsg_v0_char c mm :
+  let R := look (only_md c) (mm_rwho mm) (mm_schema_ok mm) (mm_rs mm) in
+  let V q := count_ok (mm_asl mm) && forallb (x_done (only_md c) q mm) (mm_asl mm) in
+  parse_mmsg_v0 c mm =
+  negb (is_paos (mm_bind mm)) && is_done (load_response (wr_c c) R) && V (wa_c c)
+  && negb (wor_c c && negb (is_done (load_response true R)) && negb (V true)).
+Proof. cbv zeta. unfold parse_mmsg_v0. rewrite parse_with_char. cbv zeta. rewrite !schedule_v0_done. reflexivity. Qed.
+
+(* fix 6a3bb24f is CONSERVATIVE: the walk of today refuses what the walk before refused, and besides that exactly the
+   Responses with more than one assertion that carry no signature of their own *)
+Lemma fix_conservative c mm : parse_mmsg c mm = negb (several_unsigned mm) && parse_mmsg_v0 c mm.
+Proof.
+  unfold parse_mmsg, parse_mmsg_v0. rewrite !parse_with_char. cbv zeta. rewrite !schedule_done, !schedule_v0_done.
+  destruct (several_unsigned mm); cbn [negb andb].
+  - destruct (negb (is_paos (mm_bind mm))), (is_done (load_response (wr_c c) _)), (count_ok (mm_asl mm)),
+      (forallb (x_done (only_md c) (wa_c c) mm) (mm_asl mm)); reflexivity.
+  - rewrite !andb_true_r. reflexivity.
 Qed.
 
 Lemma parse_message_char c m :
@@ -761,10 +791,10 @@ Proof. reflexivity. Qed.
 
 (* DECOMPOSITION: a Response with a list of assertions yields an identity exactly when the number rule of
    parse_assertion admits the list and the Response yields one with EVERY SINGLE of its assertions *)
-Lemma decomposition c mm :
-  parse_mmsg c mm = count_ok (mm_asl mm) && forallb (fun x => parse_message c (as_msg mm x)) (mm_asl mm).
+Lemma decomposition_v0 c mm :
+  parse_mmsg_v0 c mm = count_ok (mm_asl mm) && forallb (fun x => parse_message c (as_msg mm x)) (mm_asl mm).
 Proof.
-  rewrite parse_mmsg_char. cbv zeta.
+  rewrite parse_mmsg_v0_char. cbv zeta.
   destruct (count_ok (mm_asl mm)) eqn:Hc; cbn [andb]; [|rewrite !andb_false_r; reflexivity].
   pose proof (count_ok_nonempty _ Hc) as Hne.
   destruct (mm_rs mm) as [g|] eqn:Hrs.
@@ -780,13 +810,20 @@ Proof.
     rewrite parse_message_char. cbv zeta. cbn [as_msg r_who m_rs m_bind a_who m_as]. rewrite Hrs. reflexivity.
 Qed.
 
+(* ... and, since fix 6a3bb24f, more than one assertion only under a signature of the Response *)
+Lemma decomposition c mm :
+  parse_mmsg c mm = negb (several_unsigned mm)
+                    && (count_ok (mm_asl mm) && forallb (fun x => parse_message c (as_msg mm x)) (mm_asl mm)).
+Proof. rewrite fix_conservative, decomposition_v0. reflexivity. Qed.
+
 (* the messages of the earlier rounds are the one-assertion instance *)
 Lemma as_msg_embed m : as_msg (embed m) (asn_of m) = m.
 Proof. destruct m; reflexivity. Qed.
 
 Lemma parse_mmsg_embed c m : parse_mmsg c (embed m) = parse_message c m.
 Proof.
-  rewrite decomposition. cbn [embed mm_asl forallb]. rewrite as_msg_embed, andb_true_r.
+  rewrite decomposition. change (several_unsigned (embed m)) with false. cbn [negb andb].
+  cbn [embed mm_asl forallb]. rewrite as_msg_embed, andb_true_r.
   unfold count_ok, plain_of, enc_of, is_plain. cbn [filter asn_of x_enc]. destruct (m_enc m); reflexivity.
 Qed.
 
@@ -827,7 +864,10 @@ Lemma otherwise_valid_mm_b_iff mm : otherwise_valid_mm_b mm = true <-> otherwise
 Proof.
   unfold otherwise_valid_mm_b, otherwise_valid_mm. rewrite !andb_true_iff, is_paos_iff, orb_true_iff, !Nat.eqb_eq.
   rewrite (forallb_Forall _ (fun x => x_who x <> WNone /\ (mm_rwho mm = WNone \/ mm_rwho mm = x_who x) /\ sig_in_profile (x_sig x) = true)).
-  - tauto.
+  - rewrite orb_true_iff, Nat.leb_le.
+    assert ((match mm_rs mm with Some _ => true | None => false end) = true <-> mm_rs mm <> None) as ->
+      by (destruct (mm_rs mm); split; congruence).
+    tauto.
   - intros x. rewrite !andb_true_iff, orb_true_iff, has_issuer_iff, who_eqb_eq.
     assert (negb (has_issuer (mm_rwho mm)) = true <-> mm_rwho mm = WNone) as -> by (destruct (mm_rwho mm); cbn; split; congruence).
     tauto.
@@ -844,13 +884,21 @@ Qed.
 
 (* ---- the property for a Response with any list of assertions ---- *)
 Lemma parse_mmsg_true c mm :
-  parse_mmsg c mm = true <-> count_ok (mm_asl mm) = true /\ Forall (fun x => parse_message c (as_msg mm x) = true) (mm_asl mm).
-Proof. rewrite decomposition, andb_true_iff, forallb_forall, Forall_forall. tauto. Qed.
+  parse_mmsg c mm = true <-> several_unsigned mm = false /\ count_ok (mm_asl mm) = true
+                             /\ Forall (fun x => parse_message c (as_msg mm x) = true) (mm_asl mm).
+Proof. rewrite decomposition, !andb_true_iff, negb_true_iff, forallb_forall, Forall_forall. tauto. Qed.
+
+Lemma not_several_unsigned mm : (length (mm_asl mm) <= 1 \/ mm_rs mm <> None) -> several_unsigned mm = false.
+Proof.
+  unfold several_unsigned. intros [H|H].
+  - apply andb_false_iff. left. apply Nat.ltb_ge. exact H.
+  - destruct (mm_rs mm); [apply andb_false_r | congruence].
+Qed.
 
 Lemma policy_holds_mm c mm : spec_mm c mm (parse_mmsg c mm).
 Proof.
   split.
-  - intros H. apply parse_mmsg_true in H. destruct H as [Hc Hall].
+  - intros H. apply parse_mmsg_true in H. destruct H as (_ & Hc & Hall).
     pose proof (count_ok_nonempty _ Hc) as Hne. split; [exact Hne|].
     assert (Forall (fun x => satisfied_m c (as_msg mm x)) (mm_asl mm)) as Hs.
     { rewrite Forall_forall in *. intros x Hx. destruct (policy_holds_m c (as_msg mm x)) as [K _]. apply K, Hall, Hx. }
@@ -870,8 +918,8 @@ Proof.
     + intros W. apply Forall_forall. intros x Hx. apply (Hs x Hx), W.
     + intros W. destruct (rr_state c mm) eqn:Er; try (left; reflexivity); right; apply Forall_forall; intros x Hx;
         destruct (Hs x Hx) as (_ & _ & _ & _ & K); destruct (K W) as [K'|K']; try discriminate K'; exact K'.
-  - intros (S1 & S2 & S3 & S4 & S5) (O1 & O2 & O3 & O4).
-    apply parse_mmsg_true. split; [apply count_ok_iff, O2|].
+  - intros (S1 & S2 & S3 & S4 & S5) (O1 & O2 & O3 & O4 & O5).
+    apply parse_mmsg_true. split; [apply not_several_unsigned, O5|]. split; [apply count_ok_iff, O2|].
     rewrite Forall_forall in *. intros x Hx.
     destruct (policy_holds_m c (as_msg mm x)) as [_ K]. apply K.
     + unfold satisfied_m.
@@ -919,7 +967,10 @@ Definition with_assertions (mm : mmsg) (l : list asn) : mmsg :=
 Lemma order_irrelevant c mm l l' :
   Permutation l l' -> parse_mmsg c (with_assertions mm l) = parse_mmsg c (with_assertions mm l').
 Proof.
-  intros P. rewrite !decomposition. cbn [with_assertions mm_asl]. f_equal.
+  intros P. rewrite !decomposition. cbn [with_assertions mm_asl].
+  replace (several_unsigned (with_assertions mm l')) with (several_unsigned (with_assertions mm l))
+    by (unfold several_unsigned; cbn [with_assertions mm_asl mm_rs]; rewrite (Permutation_length P); reflexivity).
+  f_equal. f_equal.
   - unfold count_ok, plain_of, enc_of. rewrite (filter_length_perm _ _ _ P), (filter_length_perm x_enc _ _ P). reflexivity.
   - apply (forallb_perm (fun x => parse_message c (as_msg (with_assertions mm l) x))), P.
 Qed.
@@ -967,6 +1018,7 @@ Proof.
   change (mm_asl (embed m)) with [asn_of m].
   assert ((Nat.eqb (length (filter (fun x => negb (x_enc x)) [asn_of m])) 1 || Nat.eqb (length (filter x_enc [asn_of m])) 1) = true) as ->
     by (cbn [filter asn_of x_enc]; destruct (m_enc m); reflexivity).
+  change (Nat.leb (length [asn_of m]) 1) with true. cbn [orb].
   cbn [embed mm_bind mm_rwho mm_rs forallb nonempty asn_of x_who x_sig x_enc].
   change (rr_state c (embed m)) with (r_state c m). change (x_state c (asn_of m)) with (a_state c m).
   rewrite !andb_true_r. cbn [andb].
@@ -986,30 +1038,43 @@ Definition xa (k : key) (corrupted e : bool) : asn :=
   {| x_who := WIdp; x_sig := Some {| signer := k; ki := KiNone; corrupt := corrupted; shp := std |}; x_enc := e |}.
 Definition resp_of (rs : option sgn) (l : list asn) : mmsg := {| mm_rwho := WIdp; mm_rs := rs; mm_asl := l; mm_bind := POST |}.
 
-(* one plain + two encrypted assertions, all genuine: accepted; the second encrypted one made by a key the SP does not
-   trust, or altered: refused, whatever its place; two plain, two encrypted or no assertion: refused by the number rule *)
+(* one plain + two encrypted assertions, all genuine, in a Response signed by the IdP: accepted; the second encrypted one
+   made by a key the SP does not trust, or altered: refused, whatever its place; two plain, two encrypted or no
+   assertion: refused by the number rule; and (fix 6a3bb24f) the all-genuine list in an UNSIGNED Response: refused *)
+Definition rsig : option sgn := Some {| signer := KIdp; ki := KiNone; corrupt := false; shp := std |}.
 Example several_assertions :
   let c := {| c_wr := B false; c_wa := B true; c_wor := Unset; c_only := Unset |} in
-  sp_run_mm c [resp_of None [xa KIdp false false; xa KIdp false true; xa KIdp false true];
-               resp_of None [xa KIdp false false; xa KIdp false true; xa KAttacker false true];
-               resp_of None [xa KIdp false false; xa KIdp true true; xa KIdp false true];
-               resp_of None [xa KIdp false true; xa KIdp false false; xa KIdp false false];
-               resp_of None [xa KIdp false false; xa KIdp false false];
-               resp_of None [xa KIdp false true; xa KIdp false true];
-               resp_of None []]
-  = [true; false; false; true; false; false; false].
+  sp_run_mm c [resp_of rsig [xa KIdp false false; xa KIdp false true; xa KIdp false true];
+               resp_of rsig [xa KIdp false false; xa KIdp false true; xa KAttacker false true];
+               resp_of rsig [xa KIdp false false; xa KIdp true true; xa KIdp false true];
+               resp_of rsig [xa KIdp false true; xa KIdp false false; xa KIdp false false];
+               resp_of rsig [xa KIdp false false; xa KIdp false false];
+               resp_of rsig [xa KIdp false true; xa KIdp false true];
+               resp_of rsig [];
+               resp_of None [xa KIdp false false; xa KIdp false true; xa KIdp false true];
+               resp_of None [xa KIdp false true]]
+  = [true; false; false; true; false; false; false; false; true].
 Proof. reflexivity. Qed.
+
+(* before fix 6a3bb24f the unsigned Response with several individually signed assertions went through (C02-F4: the
+   report then mixes them); neither walk ever violated the safety half of C01 there, the acceptance half did not and
+   does not ask for it *)
+Example fix_6a3bb24f :
+  let c := {| c_wr := B false; c_wa := B true; c_wor := Unset; c_only := Unset |} in
+  let m := resp_of None [xa KIdp false false; xa KIdp false true] in
+  parse_mmsg_v0 c m = true /\ parse_mmsg c m = false /\ spec_mm_b c m true = true /\ spec_mm_b c m false = true.
+Proof. repeat split; reflexivity. Qed.
 
 (* a receiver that verified only the FIRST decrypted assertion (one decryption round before decrypt_assertions, the
    rest opened by the later loop with verified=True) would yield an identity from a forged second encrypted
    assertion, and the spec says so *)
 Definition first_only (l : list asn) : list asn := plain_of l ++ firstn 1 (enc_of l).
 Definition parse_mmsg_single_round (c : config) (mm : mmsg) : bool :=
-  count_ok (mm_asl mm) && forallb (fun x => parse_message c (as_msg mm x)) (first_only (mm_asl mm)).
+  negb (several_unsigned mm) && count_ok (mm_asl mm) && forallb (fun x => parse_message c (as_msg mm x)) (first_only (mm_asl mm)).
 Example single_round_refuted :
   let c := {| c_wr := B false; c_wa := B true; c_wor := Unset; c_only := Unset |} in
-  let good := resp_of None [xa KIdp false false; xa KIdp false true; xa KIdp false true] in
-  let bad := resp_of None [xa KIdp false false; xa KIdp false true; xa KAttacker false true] in
+  let good := resp_of rsig [xa KIdp false false; xa KIdp false true; xa KIdp false true] in
+  let bad := resp_of rsig [xa KIdp false false; xa KIdp false true; xa KAttacker false true] in
   parse_mmsg_single_round c good = parse_mmsg c good
   /\ parse_mmsg c bad = false /\ parse_mmsg_single_round c bad = true
   /\ spec_mm_b c bad true = false /\ spec_mm_b c bad false = true.
